@@ -408,6 +408,32 @@ func (e *Exec) fewValues(t *Term, k int) bool {
 	return few
 }
 
+// tightBound returns the smallest of a few candidate bounds that the path
+// condition implies for t (at most limit); recorded like a decision.
+func (e *Exec) tightBound(t *Term, limit int) int {
+	if e.pos < len(e.decisions) {
+		d := e.decisions[e.pos]
+		e.pos++
+		if d.guess != nil {
+			return int(d.guess.Int64())
+		}
+		return limit
+	}
+	res := limit
+	for _, b := range []int{8, 32, 64, 96, 160, 256, 512} {
+		if b >= limit {
+			break
+		}
+		if e.sol.Check(e.tb.Cmp(OpUlt, e.tb.BVu(uint64(b), 64), t)) == Unsat {
+			res = b
+			break
+		}
+	}
+	e.decisions = append(e.decisions, decision{val: true, guess: big.NewInt(int64(res))})
+	e.pos++
+	return res
+}
+
 func (e *Exec) fresh(name string, w int) *Term {
 	e.varSeq[name]++
 	n := e.varSeq[name]
